@@ -113,6 +113,8 @@ def validate(K, kernel, n, rnd, rounds=40):
 
 
 def run(ob, scratch):
+    if ob['params'].get('kernel') == 'conv':
+        return run_conv(ob, scratch)
     t0 = time.time()
     P = ob['params']
     fam, kernel, n = P['family'], P['kernel'], P['n']
@@ -203,4 +205,176 @@ def run(ob, scratch):
     res.update(verdict=verdict, detail=detail, cex=cex, paths=len(outs), solver_queries=stats['queries'] + q,
                solver_s=round(stats['solver_s'] + ts, 3), wall_s=round(time.time() - t0, 2), twin_refuted=reached > 0,
                instr=stats['instr'], witness={'returning_paths': reached})
+    return res
+
+
+# ---------------------------------------------------------------------------
+# conversion layer (C13): COPY_KEY_FROM_ARG / COPY_VALUE_FROM_ARG of the real family source, argument = a fake
+# PyLong whose value is an UNBOUNDED z3 integer (or an object that is not an int)
+
+CSRC = os.path.join(os.path.dirname(KSRC), 'verif_conv.c')
+TYPE_ERROR, OVERFLOW_ERROR = 0xE0010, 0xE0020
+LONG_MIN, LONG_MAX = -2 ** 63, 2 ** 63 - 1
+_CONV = {}
+KEYT = {'I': (32, True), 'U': (32, False), 'L': (64, True), 'Q': (64, False)}
+
+
+def build_conv(fam, scratch):
+    if fam in _CONV:
+        return _CONV[fam]
+    inc = sysconfig.get_paths()['include']
+    d = os.path.join(scratch, 'kernels')
+    os.makedirs(d, exist_ok=True)
+    ll = os.path.join(d, 'c_%s_%d.ll' % (fam, os.getpid()))
+    subprocess.run(['clang-14', '-S', '-emit-llvm', '-O1', '-fno-inline-functions', '-fno-unroll-loops', '-fno-vectorize',
+                    '-fno-slp-vectorize', '-w', '-DEXCLUDE_INTSET_SUPPORT', '-DFAMILY_C="_%sBTree.c"' % fam, '-I' + inc,
+                    '-I' + os.path.join(REPO, 'include', 'persistent'), '-I' + SRC, CSRC, '-o', ll], check=True, capture_output=True)
+    _CONV[fam] = llsym.Module(ll)
+    return _CONV[fam]
+
+
+def conv_setup(module, N, is_long, timeout):
+    """interpreter + memory with a fake object, error-indicator cell and CPython API contract stubs"""
+    it = llsym.Interp(module, timeout=timeout)
+    mem = llsym.Memory()
+    typ = mem.alloc(416, 'type')
+    mem.store(typ + 168, 8, z3.If(is_long, llsym.bv(1 << 24, 64), llsym.bv(0, 64)))       # tp_flags: Py_TPFLAGS_LONG_SUBCLASS
+    obj = mem.alloc(32, 'object')
+    mem.store(obj, 8, llsym.bv(1, 64))
+    mem.store(obj + 8, 8, llsym.bv(typ, 64))
+    g = mem.alloc(64, 'globals')
+    for i, (name, val) in enumerate((('PyExc_TypeError', TYPE_ERROR), ('PyExc_OverflowError', OVERFLOW_ERROR))):
+        mem.store(g + 8 * i, 8, llsym.bv(val, 64))
+        it.globals[name] = g + 8 * i
+    err = mem.alloc(8, 'error-indicator')
+    mem.store(err, 8, llsym.bv(0, 64))
+    out = mem.alloc(8, 'out')
+    mem.store(out, 8, llsym.bv(0x5555555555555555, 64))
+
+    def get_err(m_):
+        return m_.load(err, 8)
+
+    def in_range(lo, hi):
+        return z3.And(N >= lo, N <= hi)
+
+    def as_long(itp, args, m_, cond):
+        ok = in_range(LONG_MIN, LONG_MAX)
+        m_.store(err, 8, z3.If(ok, get_err(m_), llsym.bv(OVERFLOW_ERROR, 64)))
+        return z3.If(ok, z3.Int2BV(N, 64), llsym.bv(-1, 64))
+
+    def as_longlong_overflow(itp, args, m_, cond):
+        ok = in_range(LONG_MIN, LONG_MAX)
+        p = itp.conc(args[1])
+        m_.store(p, 4, z3.If(ok, llsym.bv(0, 32), z3.If(N > LONG_MAX, llsym.bv(1, 32), llsym.bv(-1, 32))))
+        return z3.If(ok, z3.Int2BV(N, 64), llsym.bv(-1, 64))
+
+    def as_ulonglong(itp, args, m_, cond):
+        ok = in_range(0, 2 ** 64 - 1)
+        m_.store(err, 8, z3.If(ok, get_err(m_), llsym.bv(OVERFLOW_ERROR, 64)))
+        return z3.If(ok, z3.Int2BV(N, 64), llsym.bv(-1, 64))
+
+    def occurred(itp, args, m_, cond):
+        return get_err(m_)
+
+    def matches(itp, args, m_, cond):
+        return z3.If(get_err(m_) == args[0], llsym.bv(1, 32), llsym.bv(0, 32))
+
+    def clear(itp, args, m_, cond):
+        m_.store(err, 8, llsym.bv(0, 64))
+
+    def setstring(itp, args, m_, cond):
+        m_.store(err, 8, args[0])
+
+    it.externs.update(PyLong_AsLong=as_long, PyLong_AsLongLongAndOverflow=as_longlong_overflow,
+                      PyLong_AsUnsignedLongLong=as_ulonglong, PyErr_Occurred=occurred, PyErr_ExceptionMatches=matches,
+                      PyErr_Clear=clear, PyErr_SetString=setstring)
+    return it, mem, obj, out, err
+
+
+def run_conv(ob, scratch):
+    t0 = time.time()
+    P = ob['params']
+    fam, which = P['family'], P['which']          # which: 'key' | 'value'
+    res = {'id': ob['id'], 'names': ['n', 'is_int'], 'twin_refuted': False, 'witness': None, 'twin_s': 0}
+    ch = fam[0] if which == 'key' else fam[1]
+    bits, signed = KEYT[ch]
+    lo, hi = (-(1 << (bits - 1)), (1 << (bits - 1)) - 1) if signed else (0, (1 << bits) - 1)
+    N = z3.Int('n')
+    is_long = z3.Bool('is_int')
+    try:
+        module = build_conv(fam, scratch)
+        it, mem, obj, out, err = conv_setup(module, N, is_long, ob.get('timeout', 120))
+        outs = it.run('v_key_from_arg' if which == 'key' else 'v_value_from_arg', [llsym.bv(obj, 64), llsym.bv(out, 64)], mem)
+    except (llsym.Unsupported, llsym.Budget) as e:
+        res.update(verdict='inconclusive', detail='%s: %s' % (type(e).__name__, e), paths=0, solver_queries=0, solver_s=0, wall_s=time.time() - t0)
+        return res
+    s = z3.Solver()
+    q, ts, cex, detail, reached = 0, 0.0, None, None, 0
+    accepted_paths = rejected_paths = 0
+    for o in outs:
+        s.push()
+        s.add(*o.cond)
+        t1 = time.perf_counter()
+        feas = str(s.check())
+        q += 1
+        if feas != 'sat':
+            s.pop()
+            ts += time.perf_counter() - t1
+            if feas == 'unknown':
+                cex, detail = 'unknown', 'solver unknown on a path condition'
+                break
+            continue
+        if o.kind in ('assert', 'memory'):
+            cex, detail = s.model(), ('assertion reachable: ' if o.kind == 'assert' else 'memory error: ') + str(o.detail)
+            s.pop()
+            break
+        if o.kind == 'dead':
+            s.pop()
+            continue
+        reached += 1
+        copied = o.ret
+        try:
+            word = o.mem.load(out, bits // 8)
+            w_ = z3.simplify(word)
+            if bits == 64 and z3.is_bv_value(w_) and w_.as_long() == 0x5555555555555555:
+                word = None                 # untouched: still the initial pattern
+        except llsym.Unsupported:
+            word = None                     # untouched (the 8-byte initial pattern is still there)
+        e = o.mem.load(err, 8)
+        representable = z3.And(is_long, N >= lo, N <= hi)
+        asint = (z3.BV2Int(word, is_signed=signed) if word is not None else None)
+        post = z3.And(
+            (copied != 0) == representable,
+            z3.Implies(copied != 0, (asint == N) if asint is not None else z3.BoolVal(False)),
+            z3.Implies(copied != 0, e == 0),
+            z3.Implies(copied == 0, e == llsym.bv(TYPE_ERROR, 64)),
+            z3.Implies(copied == 0, z3.BoolVal(word is None)))      # the target is not written on rejection
+        r = str(s.check(z3.Not(post)))
+        q += 1
+        ts += time.perf_counter() - t1
+        if r == 'sat':
+            cex, detail = s.model(), 'conversion post-condition violated (accepted iff representable; stored word == n; TypeError otherwise; target untouched)'
+            s.pop()
+            break
+        if r != 'unsat':
+            cex, detail = 'unknown', 'solver unknown on the post-condition'
+            s.pop()
+            break
+        if str(s.check(copied != 0)) == 'sat':
+            accepted_paths += 1
+        else:
+            rejected_paths += 1
+        s.pop()
+    if cex == 'unknown':
+        verdict, cex = 'inconclusive', None
+    elif cex is not None:
+        verdict = 'counterexample'
+        cex = {'n': cex.eval(N, model_completion=True).as_long(), 'is_int': bool(cex.eval(is_long, model_completion=True))}
+    elif accepted_paths == 0 or rejected_paths == 0:
+        verdict, detail = 'inconclusive', 'vacuous: accepting paths %d, rejecting paths %d' % (accepted_paths, rejected_paths)
+    else:
+        verdict = 'confirmed'
+    res.update(verdict=verdict, detail=detail, cex=cex, paths=len(outs), solver_queries=it.stats['queries'] + q,
+               solver_s=round(it.stats['solver_s'] + ts, 3), wall_s=round(time.time() - t0, 2), twin_refuted=reached > 0,
+               instr=it.stats['instr'], witness={'accepting_paths': accepted_paths, 'rejecting_paths': rejected_paths})
     return res
